@@ -635,8 +635,10 @@ def run(ctx):
     ctx.rule('C04.STATEREC', lambda: rule_staterec(ctx), 6)
     ctx.rule('C04.WHO', lambda: rule_who(ctx)[0], 9)
     ctx.rule('C04.STATEALIAS', lambda: rule_statealias(ctx), 2)
-    ctx.rule('C04.LOGICALFILE', lambda: rule_logical_file(ctx), 2)
+    ctx.rule('C04.LOGICALFILE', lambda: rule_logical_file(ctx) + rule_logical_file_stateless(ctx), 5)
     ctx.rule('C04.STORAGE', lambda: rule_storage_batch(ctx), 2)
+    ctx.rule('C04.STATEMOVE', lambda: rule_state_moves_with_commit(ctx), 2)
+    ctx.rule('C04.PREFIXSCAN', lambda: rule_storage_prefix(ctx, 'C04'), 2)
     from . import c06 as _c06
     from ..chain import ChainModel as _CM
     ctx.rule('C04.OKFLAG', lambda: _c06.rule_okflag(ctx, _CM(ctx)), 20)
@@ -733,3 +735,125 @@ def rule_logical_file(ctx, prop='C04'):
               'the offset and the remaining data do not advance by the same piece size once per iteration (or the file is opened at '
               'another offset)', loc=ctx.loc(f, lp))
     return 2
+
+
+def rule_logical_file_stateless(ctx, prop='C04'):
+    '''LogicalFile keeps no open handle and no position between calls: readers run on several executor threads at once, and
+    a shared handle's seek + read pairs interleave (one thread reads at the other's offset).  Every read / write opens its
+    own handle through open_file() inside a `with`.'''
+    rule = f'{prop}.LOGICALFILE'
+    rel = ctx.repo.path('util')
+    wr = []
+    for f in ctx.repo.funcs.values():
+        if f.unit.relpath != rel or f.cls != 'LogicalFile' or f.name == '__init__':
+            continue
+        for x in f.own_nodes():
+            if isinstance(x, ast.Attribute) and isinstance(x.ctx, (ast.Store, ast.Del)) and isinstance(x.value, ast.Name) and x.value.id == 'self':
+                wr.append(f'{ctx.loc(f, x)} {f.qual}: self.{x.attr}')
+            if isinstance(x, ast.Call) and isinstance(x.func, ast.Attribute) and x.func.attr in ('setdefault', 'append', 'update', 'add', '__setitem__') \
+                    and isinstance(x.func.value, ast.Attribute) and isinstance(x.func.value.value, ast.Name) and x.func.value.value.id == 'self':
+                wr.append(f'{ctx.loc(f, x)} {f.qual}: self.{x.func.value.attr}.{x.func.attr}')
+            if isinstance(x, (ast.Assign,)) and any(isinstance(t, ast.Subscript) and isinstance(t.value, ast.Attribute) and
+                                                    isinstance(t.value.value, ast.Name) and t.value.value.id == 'self' for t in x.targets):
+                wr.append(f'{ctx.loc(f, x)} {f.qual}: {norm(x.targets[0])[:40]}')
+    ctx.check(not wr, rule, f'{rel} :: LogicalFile :: no state kept between calls',
+              'no method of LogicalFile other than __init__ stores anything on the object',
+              f'LogicalFile keeps state between calls ({wr[:2]}): a cached handle shares its file position between the executor threads that '
+              'read meta/hashes, meta/headers concurrently - a reader then gets the bytes at another reader\'s offset')
+    n = 1
+    for name in ('read', 'write'):
+        f = ctx.func('util', f'LogicalFile.{name}')
+        opens = [c for c in q.own_calls(f) if q.callee_name(ctx, f, c) == 'self.open_file']
+        ok = bool(opens) and all(isinstance(getattr(c, '_parent', None), ast.withitem) for c in opens)
+        ctx.check(ok, rule, ctx.key(f, None, 'own handle per call'),
+                  f'LogicalFile.{name} opens its own handle in a `with` for each piece',
+                  f'LogicalFile.{name} does not open its own handle in a `with`', loc=ctx.loc(f, f.node))
+        n += 1
+    return n
+
+
+def rule_storage_prefix(ctx, prop='C01'):
+    '''Storage.iterator(prefix) yields exactly the keys that start with the prefix - every table scan (u/h rows of one script
+    hash, undo rows, history rows) relies on it.  An engine class provides it in one of the forms whose end-of-range is right
+    for every prefix, including one that ends in 0xff bytes: the engine's own prefix iterator, a per-key startswith() test, or
+    an end key computed by util.increment_byte_string (which carries over 0xff).'''
+    rule = f'{prop}.PREFIXSCAN'
+    rel = ctx.repo.path('storage')
+    n = 0
+    classes = {}
+    for f in ctx.repo.funcs.values():
+        if f.unit.relpath == rel and f.cls and f.parent is None:
+            classes.setdefault(f.cls, {})[f.name] = f
+    for cls, meths in sorted(classes.items()):
+        if cls == 'Storage' or 'open' not in meths:
+            continue
+        n += 1
+        ok, how = False, 'no iterator provided'
+        if 'iterator' in meths:
+            it = meths['iterator']
+            txt = ' '.join(norm(x) for x in it.own_nodes() if isinstance(x, ast.Call))
+            kw_prefix = any(isinstance(c, ast.Call) and any(k.arg == 'prefix' for k in c.keywords) for c in it.own_nodes())
+            via_class = [norm(c.func) for c in it.own_nodes() if isinstance(c, ast.Call) and norm(c.func) in classes]
+            starts = False
+            for vc in via_class:
+                nx = classes[vc].get('__next__')
+                starts = starts or (nx is not None and any(isinstance(c, ast.Call) and isinstance(c.func, ast.Attribute) and c.func.attr == 'startswith'
+                                                           for c in nx.own_nodes()))
+            inc = 'increment_byte_string' in txt
+            ok = kw_prefix or starts or inc
+            how = f'{cls}.iterator: passes prefix= to the engine: {kw_prefix}; per-key startswith test: {starts}; increment_byte_string: {inc}'
+        else:
+            op = meths['open']
+            binds = [s_ for s_ in op.own_nodes() if isinstance(s_, ast.Assign) and any(ctx.res.canon(t, op) == 'self.iterator' for t in s_.targets
+                                                                                    if isinstance(t, ast.Attribute))]
+            ok = len(binds) == 1 and norm(binds[0].value).endswith('.iterator')
+            how = f'{cls}.open binds self.iterator = {norm(binds[0].value) if binds else "?"}'
+        ctx.check(ok, rule, f'{rel} :: {cls} :: prefix scans end where the prefix ends',
+                  'the prefix iterator is the engine\'s own, filters by startswith, or ends at increment_byte_string(prefix)',
+                  how + ' - the end of the prefix range is computed some other way: for a prefix ending in 0xff the scan runs on into the keys '
+                  'of other script hashes (their UTXOs and balances are reported for this one)')
+    return n
+
+
+def rule_state_moves_with_commit(ctx, prop='C04'):
+    '''DB.state is the height the UTXO store has committed.  (1) In flush_utxo_db the new state is assigned BEFORE
+    write_utxo_state(batch) serialises it, so the batch carries the state record that matches its rows.  (2) In flush_dbs the
+    state is re-written after the flush only when UTXOs were flushed: on a history-only flush the block processor's state is
+    ahead of the UTXO store, and a direct state put would make the DB report a height whose UTXOs were never written.'''
+    rule = f'{prop}.STATEMOVE'
+    n = 0
+    fu = ctx.func('db', 'DB.flush_utxo_db')
+    ws = ctx.func('db', 'DB.write_utxo_state')
+    cfg = ctx.cfg(fu)
+    calls = [q.stmt(c) for c in q.calls_resolving_to(ctx, fu, ws)]
+    assigns = [s_ for s_ in fu.own_nodes() if isinstance(s_, ast.Assign) and any(isinstance(t, ast.Attribute) and ctx.res.canon(t, fu) == 'self.state'
+                                                                              for t in s_.targets)]
+    ok = bool(calls) and bool(assigns)
+    wit = None
+    if ok:
+        for c in calls:
+            p = pr.path_avoiding(cfg, [cfg.entry], [cfg.node(c)], {cfg.node(a) for a in assigns})
+            if p is not None:
+                ok, wit = False, cfg.describe_path(p)
+    ctx.check(ok, rule, ctx.key(fu, calls[0] if calls else None, 'batch carries the new state'),
+              'self.state takes the flushed state before write_utxo_state(batch) serialises it',
+              'write_utxo_state(batch) can run before self.state was updated: the UTXO batch then commits the new rows under the OLD state '
+              'record; a crash before the later direct put leaves a DB that reports the old height over the new UTXO set',
+              witness=wit, loc=ctx.loc(fu, calls[0] if calls else fu.node))
+    n += 1
+    fd = ctx.func('db', 'DB.flush_dbs')
+    fup = fd.params[2]
+    moves = [s_ for s_ in fd.own_nodes() if isinstance(s_, ast.Assign) and any(isinstance(t, ast.Attribute) and ctx.res.canon(t, fd) == 'self.state'
+                                                                             for t in s_.targets)]
+    moves += [q.stmt(c) for c in q.calls_resolving_to(ctx, fd, ws)]
+    bad = []
+    for m in moves:
+        conds = pr.control_conditions(m, fd.node)
+        if not any(b and isinstance(t, ast.Name) and t.id == fup for t, b, _p in conds):
+            bad.append(f'line {m.lineno} `{norm(m)[:50]}`')
+    ctx.check(not bad and bool(moves), rule, ctx.key(fd, None, 'state re-written only with a UTXO flush'),
+              f'in flush_dbs DB.state is moved / re-written only under `if {fup}`',
+              f'{"; ".join(bad)} is not conditional on `{fup}`: a history-only flush then stores the block processor\'s state, which is ahead of '
+              'the UTXO store - after a crash the DB reports a height whose UTXO changes were never committed',
+              loc=ctx.loc(fd, fd.node))
+    return n + 1
